@@ -4306,7 +4306,9 @@ void SoPlexBase<R>::_untransformUnbounded(SolRational& sol, bool unbounded)
       _basisStatusCols.reSize(numOrigCols);
       _basisStatusRows.reSize(numOrigRows);
    }
-   else if(boolParam(SoPlexBase<R>::TESTDUALINF) && tau < _rationalFeastol)
+   // (the unboundedness test may end without a primal / dual solution: tau and alpha exist only if the vectors do)
+   else if(boolParam(SoPlexBase<R>::TESTDUALINF) && sol._primal.dim() > numOrigCols
+           && sol._dual.dim() > numOrigRows && tau < _rationalFeastol)
    {
       const Rational& alpha = sol._dual[numOrigRows];
 
